@@ -277,6 +277,11 @@ def corpus_cases(cases):
         if rej or hx_rng.chance(1, 12):
             cases.add("corpus:hexorder:" + lab, data, mesh="hex", check=0, bu=1)
             cases.add("corpus:hexorder:" + lab, data, mesh="poly", check=1, bu=0)
+    #   * the tetrahedral class with the topology check (fix 50db8ef, checked tet add_cell requires four distinct vertices): two
+    #     pillows must be refused, a proper tet accepted; the same files with the check off
+    for (lab, data, rej) in iogen.tet_cell_files(hx_rng):
+        cases.add("corpus:tetcell:" + lab, data, mesh="tet", check=1, bu=1, expect="reject" if rej else None)
+        cases.add("corpus:tetcell:" + lab, data, mesh="tet", check=0, bu=1)
 
 def optional_ascii(ctx, pid):
     if os.environ.get("VERIF_OVMB_ONLY"): return      # development aid: binary half only
